@@ -516,7 +516,22 @@ def task_indent(root: str) -> list[dict]:
         after = conv("decompile", gen(1), set_b(p), [])
         if alone != after:
             out.append({"case": f"object-reused-in-second-set:{kind_name}", "symptom": "output-depends-on-earlier-print", "detail": _first_diff(alone, after)})
-    out.append({"case": "evaluated", "symptom": "", "detail": "6"})
+        # (3) the string is a parameter of a JUMPING op (an operation used as if-condition, a case menu): the decompilers see such ops
+        #     wrapped into label jumps; the SsbScript view printed first (where strings are indented differently), then ExplorerScript
+        for jname, jparams in (("BranchExecuteSub", lambda q: [q, 3]), ("CaseMenu", lambda q: [q, 3])):
+            def set3(q, jname=jname, jparams=jparams):
+                body = [op(1, jname, *jparams(q)), op(2, "Return"), op(3, "talk", 1), op(4, "Return")]
+                if jname == "CaseMenu":
+                    return [[op(0, "message_SwitchMenu", 0, 0)] + body]
+                return [[op(0, "pre", 0)] + body]
+
+            alone = conv("decompile", gen(1), set3(mk()), [])
+            objs = set3(mk())
+            conv("decompile-ssbscript", gen(1), objs, [])
+            after = conv("decompile", gen(1), objs, [])
+            if alone != after:
+                out.append({"case": f"string-of-jumping-op-{jname}-after-ssbscript-view:{kind_name}", "symptom": "output-depends-on-earlier-print", "detail": _first_diff(alone, after)})
+    out.append({"case": "evaluated", "symptom": "", "detail": "10"})
     return out
 
 
